@@ -331,4 +331,43 @@ Proof.
     try (specialize (Hlt _ _ eq_refl eq_refl)); lra.
 Qed.
 
+(* ---------- scale equivariance: multiplying len_scale (and every lag) by lam > 0 changes nothing but the unit:
+   correlation, the curve of the percentile scale, len_rescaled and all closed-form integral scales *)
+Lemma scale_equivariance (c : R -> R) lam lr len resc per r nu :
+  0 < lam -> lr <> 0 ->
+  correlation_of OR c (lam * lr) (lam * r) = correlation_of OR c lr r /\
+  percentile_curve OR (correlation_of OR c (lam * lr)) per (lam * r)
+    = percentile_curve OR (correlation_of OR c lr) per r /\
+  len_rescaled OR (lam * len) resc = lam * len_rescaled OR len resc /\
+  intscale_gaussian OR (lam * lr) = lam * intscale_gaussian OR lr /\
+  intscale_exponential (lam * lr) = lam * intscale_exponential lr /\
+  intscale_stable OR nu (lam * lr) = lam * intscale_stable OR nu lr /\
+  intscale_matern OR nu (lam * lr) = lam * intscale_matern OR nu lr /\
+  intscale_integral OR nu (lam * lr) = lam * intscale_integral OR nu lr /\
+  intscale_rational OR nu (lam * lr) = lam * intscale_rational OR nu lr.
+Proof.
+  intros Hl Hr.
+  assert (E : correlation_of OR c (lam * lr) (lam * r) = correlation_of OR c lr r).
+  { unfold correlation_of. rsimp. f_equal. rewrite Rabs_mult, (Rabs_pos_eq lam) by lra. field. split; lra. }
+  split; [exact E|]. split; [unfold percentile_curve; rewrite E; reflexivity|].
+  unfold len_rescaled, intscale_gaussian, intscale_exponential, intscale_stable, intscale_matern, intscale_integral,
+    intscale_rational. rsimp. unfold Rdiv. repeat split; ring.
+Qed.
+
+(* ---------- integral-scale setter, ANY calc (also the TPL classes, whose scale is not proportional to len_scale):
+   the candidate is len = target / calc 1; it is accepted iff the scale it gives is within np.isclose(rtol = 1e-3)
+   of the prescribed one, otherwise the setter refuses (ValueError) *)
+Definition setter_tol (target : R) : R := 1 / 100000000 + 1 / 1000 * Rabs target.
+Lemma integral_scale_setter_accepts_iff (calc : R -> R) target :
+  let len := target / calc 1 in
+  (set_integral_scale OR calc target = Some len /\ Rabs (calc len - target) <= setter_tol target) \/
+  (set_integral_scale OR calc target = None /\ setter_tol target < Rabs (calc len - target)).
+Proof.
+  intros len. unfold set_integral_scale, setter_tol, atol, lit. rewrite !nlitS_R. rsimp. fold len.
+  change (10 ^ Z.of_nat 8)%Z with 100000000%Z. change (10 ^ Z.of_nat 3)%Z with 1000%Z.
+  unfold Rleb. destruct (Rle_dec (Rabs (calc len - target)) (1 / 100000000 + 1 / 1000 * Rabs target)) as [H|H].
+  - left. split; [reflexivity|exact H].
+  - right. split; [reflexivity|lra].
+Qed.
+
 End AtR.
